@@ -62,7 +62,7 @@ CHECKS = {
         level="model_checking", design="DESIGN.md 4/C09",
         technique="TLA+ definitions LBKeogh/ED model-checked for the sandwich; recorded bounds of both engines trace-validated by TLC",
         text="Act M proves LB_Keogh <= Opt (no psi, any penalty) and Opt <= ED (penalty-free or equal lengths) and Opt = ED "
-             "for window 1 on the model; every recorded LB_Keogh / Euclidean distance / only_ub value (Python, Cython, direct "
+             "for window 1 on the model; every recorded LB_Keogh / Euclidean distance / only_ub value (Python, Cython, distance(use_c), direct "
              "C calls, ndim 1-3, signed data) must equal the specification's value and satisfy the sandwich with the "
              "recorded DTW distance.",
         note="Trusted: TLC, exact-domain encoding."),
@@ -71,7 +71,9 @@ CHECKS = {
         technique="laws model-checked on the TLA+ definition; related pairs of real calls trace-validated by TLC",
         text="Act M proves identity, non-negativity, symmetry with the psi swap and monotonicity in window / psi / max_step / "
              "penalty for the definition on every case of the slice; for recorded pairs of real calls (both engines, "
-             "distance-matrix mirror entries) TLC checks each relation and the base value against Opt.",
+             "distance-matrix mirror entries) TLC checks each relation and the base value against Opt. For ALL sizes tlapm "
+             "proves that the band, the psi corners and the step relation are symmetric under the swap and that a "
+             "larger window / psi only adds cells (LayoutProofs.tla, tied to DTWCore by a TLC invariant).",
         note="Trusted: TLC, exact-domain encoding. Independent of any reference implementation."),
     "C11": dict(
         level="model_checking", design="DESIGN.md 4/C11",
@@ -102,19 +104,26 @@ CHECKS = {
              "'c shared' must be refuted). Real executions: complete block space through the OpenMP extension and "
              "direct *_parallel calls with 3-7 thread counts up to 64, the real dtw_distances_prepare plan, and the "
              "multiprocessing branches with pools whose tasks complete in seeded random orders (plus a real Pool); "
-             "all outputs judged element for element against the serial layout and the specification.",
-        note="Trusted: TLC; the source scan that derives SharedVars (regex over pragma/declarations; unknown shapes fail "
-             "closed); re-entrancy of dtw_distance (no static state) is an assumption bound by the real runs. Real-thread "
-             "runs sample schedules; exhaustiveness is in the model only."),
+             "all outputs judged element for element against the serial layout and the specification. The REAL loop "
+             "bodies are also linked against a deterministic stand-in for libgomp (native/gomp_shim.c) and run under "
+             "scripted schedules: (thread, row) hand-out orders, and thread choices at scheduling points inserted "
+             "before and after every kernel call, so that a scalar shared by mistake is clobbered deterministically.",
+        note="Trusted: TLC; the source scan that derives SharedVars (regex over pragma/declarations; an unknown shared "
+             "scalar is reported only when it is read in the body and assigned from per-iteration state); re-entrancy of "
+             "dtw_distance (no static state) is an assumption bound by the real runs. Real-thread runs sample schedules; "
+             "the shim is deterministic at iteration and kernel-call granularity; exhaustiveness at assignment "
+             "granularity is in the model only."),
     "C08": dict(
         level="exploration", design="DESIGN.md 4/C08",
         technique="TLA+ Compact layout model gives the buffer-size contract; exhaustive small configuration space replayed under gcc ASan+UBSan with exact-size malloc'ed caller buffers",
         text="TLC proves for all (l1,l2) <= 8x8 (12x12) and all windows that the compact layout keeps every in-band cell "
              "inside the advertised buffer and that each region's recurrence reads predecessor/border/filler slots. The "
-             "code is then run under ASan+UBSan (library compiled from /repo's C sources) over all (l1,l2) <= 5x5 (7x7), "
+             "code is then run under ASan+UBSan (library compiled from /repo's C sources) over all (l1,l2) <= 7x7 (9x9), "
              "all windows, psi 4-tuples (degenerate included), options on/off, ndim 1-3, every block for n <= 4 (5), DBA "
-             "masks across the byte boundary and the affinity routines, with caller buffers of exactly the documented "
-             "sizes. TLC cannot observe memory: the sanitizer is the monitor, hence level exploration.",
+             "masks across the byte boundaries (9, 10, 17 series) and the affinity routines, with caller buffers of "
+             "exactly the documented sizes. For ALL sizes, tlapm proves on Layout.tla (tied to Compact.tla by a TLC "
+             "invariant) that every stored cell has a slot inside its row of the advertised buffer. TLC cannot observe "
+             "memory: the sanitizer is the monitor, hence level exploration.",
         note="Trusted: gcc 12 ASan/UBSan runtime; buffer sizes taken from the documented functions "
              "(dtw_settings_wps_length, dtw_distances_length)."),
     "C12": dict(
@@ -165,7 +174,7 @@ CHECKS = {
         text="TLC explores the k-means loop over ALL rank tables (k <= 3, n <= 4, max_it <= 2) with outlier masks and "
              "empty-cluster repair as nondeterministic choices: every terminal state has keys 0..k-1, a partition, "
              "nearest-mean membership and performed_it <= max_it+1. Real fits (seeds x initialisation modes x "
-             "drop_stddev x window/penalty x use_c x containers, a few with the real Pool) are judged by the same "
+             "drop_stddev x window/penalty/psi (scalar and per-series 4-tuples) x use_c x containers, a few with the real Pool) are judged by the same "
              "predicate on the returned clusters, len(means), performed_it, monitor_distances calls, and the dense "
              "ranks of DTW distances series x final means computed with the library's single-pair routine.",
         note="Trusted: TLC; dtw.distance / dtw_ndim.distance for the ranks (decided under C01/C02/C11); ranks tie values "
@@ -175,7 +184,7 @@ CHECKS = {
         technique="TLA+ NW: recurrence proved equal to the maximum over all enumerated global alignments; recorded values, score matrices and alignments trace-validated",
         text="Act M: for all sequence pairs up to length 3/4 over a binary alphabet x substitution tables x gap scores the "
              "dynamic programme with its border equals the maximum over ALL global alignments. Real calls (default and "
-             "dictionary scoring with fractional gap costs, max/min orientation, lengths 0..6, six traceback orders): TLC "
+             "dictionary scoring with fractional and zero gap costs, max/min orientation, lengths 0..6, six traceback orders): TLC "
              "judges value = optimum, the score matrix cell by cell and every alignment (equal lengths, reduces to the "
              "inputs, no gap/gap column, scores the value).",
         note="Trusted: TLC; scores scaled by 2 to keep half-integer gap costs exact."),
@@ -196,7 +205,7 @@ CHECKS = {
         text="Act M proves monotonicity, zero -> maximal, range [0,1] under the default scale and positivity of every "
              "derived scale for all distance arrays over {0,1,2,4} up to length 3 x methods x given/derived parameters. "
              "Real calls of distance_to_similarity and squash (all methods x defaults / explicit r, a, x0, base / "
-             "cover_quantile / keep_sign x shapes) are judged on exact rational values, on the rational ARGUMENT "
+             "cover_quantile / keep_sign (also with a base and on signed data) x shapes) are judged on exact rational values, on the rational ARGUMENT "
              "recovered from the value (ln S, log_b(1-S), log_b(S/(1-S))), on dense ranks and range flags, reported "
              "parameters and re-application.",
         note="Trusted: TLC; the lemma that exp is increasing with exp(0)=1; recovery of rational arguments from floats "
